@@ -358,11 +358,35 @@ def annotate_function(src, m, fn, relpath, contract_only):
             frep['transforms'].append('T2: do/while loop %d rewritten as for(;;){BODY if(!(c)) break;}' % idx)
     for i_ in fn['inserts']:
         p = nth_find(src, i_['anchor'], i_['occ'], lb, rb)
+        fuzzy = False
         if p < 0:
-            raise Drift('%s: %s: anchor %r (occ %d) not found'
-                        % (relpath, name, i_['anchor'], i_['occ']))
+            # tolerant re-anchoring: the statement was reformatted / an argument changed.  If the anchor
+            # starts with a call `name(` that occurs exactly once in the function, anchor on that
+            # statement instead (recorded in the report); otherwise it is drift.
+            mo = re.match(r'\s*((?:[A-Za-z_][\w\.\->\[\]\*& ]*=\s*)?[A-Za-z_]\w*\s*\()', i_['anchor'])
+            key = mo.group(1) if mo else None
+            if key and len(key) >= 6 and i_['occ'] == 1 and src.count(key, lb, rb) == 1:
+                p = src.find(key, lb, rb)
+                fuzzy = True
+                frep['transforms'].append('anchor %r re-found by its leading call %r' % (i_['anchor'][:60], key))
+            else:
+                raise Drift('%s: %s: anchor %r (occ %d) not found'
+                            % (relpath, name, i_['anchor'], i_['occ']))
         if i_['where'] == 'after':
-            e = src.find('\n', p)
+            if fuzzy:
+                # end of the (possibly multi-line) statement
+                d_, q = 0, p
+                while q < rb:
+                    if m[q] in '([{':
+                        d_ += 1
+                    elif m[q] in ')]}':
+                        d_ -= 1
+                    elif m[q] == ';' and d_ <= 0:
+                        break
+                    q += 1
+                e = src.find('\n', q)
+            else:
+                e = src.find('\n', p)
             ins(e + 1, '\n'.join(i_['lines']) + '\n')
         else:
             b = src.rfind('\n', 0, p) + 1
